@@ -106,6 +106,10 @@ fn case_text(t: &mut Tape, st: &mut Stats) -> Verdict {
     if handles(&ctx) != before {
         return fail("C17/text/handles-leaked", d("release", format!("{} handles, {} before", handles(&ctx), before)));
     }
+    if st.want_sample() && nt {
+        let tx = text.clone();
+        st.sample(|| json!({"text": tx}));
+    }
     Verdict::Pass(if nt { Some(fp(&text)) } else { None })
 }
 
